@@ -1,6 +1,6 @@
 """C14 — size rotation: statements whole, ordered, bounded (DESIGN §4 C14)."""
 from qlib import (AnalysisBroken, strip, isnode, walk, is_call, norm_cmp, var_ref, is_null, const_val, short, call_obj,
-                  expr_key, field_name, is_this_field)
+                  expr_key, field_name, is_this_field, var_name)
 from rules.common import (core_and_neg, tnode, other, cpos, npos, branches_on_call, in_subtree, need_some, straight_after,
                           flatten, loops_enclosing)
 from rules.c02 import cmp_sides
@@ -31,10 +31,14 @@ def run(ctx):
         r1(ctx, facts, f)
     for f in facts.need(RS + "_rotate_files", "A", floor=2):
         r2_r3_r4(ctx, facts, f)
+        rename_chain(ctx, facts, f)
+    for f in facts.need(RS + "_get_filename", "A", floor=2):
+        get_filename(ctx, facts, f)
     for f in facts.need(RS + "_size_rotation", "A", floor=2):
         size_rotation(ctx, f)
     for f in facts.need(RS + "_clean_and_recover_files", "A", floor=2):
         recover(ctx, facts, f)
+    stream_write(ctx, facts)
     ctx.note("RotatingSink<JsonFileSink> adds the size of the text statement, not of the JSON line, to the tracked size (observed; value clause)")
 
 
@@ -86,6 +90,27 @@ def r1(ctx, facts, f):
     ok = bool(mx) and not g.exists_path([g.entry_node], srp, avoid_edges=mx)
     ctx.ob("C14.R1e", site + ":size-rotation-when-enabled", ok,
            "size rotation is consulted exactly when rotation_max_file_size is set", fn=f)
+    # R1i: ... and always then, unless the time rotation has just started a new file for this statement
+    holders = set()
+    for n in f.walk():
+        if n["k"] == "BinaryOperator" and n["op"] == "=" and var_ref(n["lhs"]) is not None and any(in_subtree(c, n["rhs"]) for c in tr):
+            holders.add(var_ref(n["lhs"]))
+    decls = f.var_decls()
+    sound = all(const_val(decls.get(h, {}).get("init")) == 0 and
+                all(any(in_subtree(c, a.get("rhs")) for c in tr) or const_val(a.get("rhs")) == 0 for a in f.assignments_to_var(h) if a["k"] == "BinaryOperator")
+                for h in holders)
+    fired = []
+    for b2, blk in g.blocks.items():
+        c = g.term_cond(b2)
+        if c is None:
+            continue
+        core, neg = core_and_neg(c)
+        if var_ref(core) in holders or any(core is c_ for c_ in tr):
+            fired.append((b2, "F" if neg else "T"))
+    skip_ok = not g.exists_path([t], live_w, avoid_nodes=srp, avoid_edges=[(bid, tl)] + [(b, other(l)) for (b, l) in mx] + fired)
+    ctx.ob("C14.R1i", site + ":size-check-not-bypassed", bool(mx) and sound and skip_ok,
+           "with a size limit set every statement passes the size check before it is written, except when the time rotation fired for "
+           "this very statement (the flag that says so starts false and is set only from _time_rotation's result: %s)" % sound, fn=f)
 
 
 def size_rotation(ctx, f):
@@ -125,7 +150,9 @@ def r2_r3_r4(ctx, facts, f):
     ren = cpos(f, r"::_rename_file$")
     rem = cpos(f, r"::_remove_file$")
     if not close or not opens:
-        raise AnalysisBroken(site + ": close_file / open_file not found")
+        ctx.ob("C14.R2a", site + ":no-return-while-closed", False,
+               "the rotation closes the file being retired and re-opens the base file (close_file: %d call(s), open_file: %d)" % (len(close), len(opens)), fn=f)
+        return
     rets = g.return_nodes()
     ok = all(not g.exists_path(close, [r]) for r in rets)
     ctx.ob("C14.R2a", site + ":no-return-while-closed", ok and not g.exists_path(close, [g.exit_node], avoid_nodes=openp),
@@ -134,6 +161,31 @@ def r2_r3_r4(ctx, facts, f):
         not g.exists_path(close, flush + fsync, avoid_nodes=openp)
     ctx.ob("C14.R2b", site + ":flush-before-close", ok,
            "buffered statements are flushed and synced to the file being retired before it is closed", fn=f)
+    # R2g: the 'file is empty' bail-out leaves only on the non-positive outcome: a file with content is rotated
+    szt = []
+    for bid, b in g.blocks.items():
+        c = g.term_cond(bid)
+        if c is None or not any(is_call(x, r"::_get_file_size$") for x in walk(c)):
+            continue
+        cs = cmp_sides(c)
+        nc = norm_cmp(c)
+        lab = None  # label of the outcome 'file has content'
+        if cs:
+            lo, hi = strip(cs[1], casts=True), strip(cs[2], casts=True)
+            if is_call(lo, r"::_get_file_size$") and const_val(hi) is not None and const_val(hi) <= 1:
+                lab = "F"   # size < c / size <= c  is the empty outcome
+            elif is_call(hi, r"::_get_file_size$") and const_val(lo) is not None and const_val(lo) <= 1:
+                lab = "T"   # c < size is the content outcome
+        elif nc and nc[0] in ("==", "!=") and "0" in (nc[1], nc[2]):
+            lab = "F" if nc[0] == "==" else "T"
+        if lab is None:
+            raise AnalysisBroken(site + ": test on _get_file_size has a shape no accepted idiom covers")
+        szt.append((bid, lab))
+    ok = bool(szt) and all(not g.exists_path([tnode(g, b)], rets, avoid_nodes=close, avoid_edges=[(b, other(l))]) for (b, l) in szt) and \
+        all(g.exists_path([tnode(g, b)], close, avoid_edges=[(b, other(l))]) for (b, l) in szt)
+    ctx.ob("C14.R2g", site + ":empty-file-bail-out", ok,
+           "the early return after the sync is taken only when the file is empty (nothing to rotate, e.g. a full disk); a file with "
+           "content always goes on to be closed and rotated", fn=f)
     ok = bool(ren) and all(g.dominates(close, p) for p in ren + rem) and not g.exists_path(openp, ren + rem)
     ctx.ob("C14.R2c", site + ":rename-only-while-closed", ok,
            "files are renamed / removed only between close_file and open_file", fn=f)
@@ -209,6 +261,274 @@ def r2_r3_r4(ctx, facts, f):
            "file is moved onto it", fn=f)
 
 
+def stream_write(ctx, facts):
+    """the base sink writes the whole statement or throws (what every rule above rests on)"""
+    f = facts.need("quill::StreamSink::write_log", "A")[0]
+    g = f.g
+    stmt = f.rec["params"][11]["did"]
+    fw = f.calls(r"StreamSink::safe_fwrite$")
+    fwp = npos(f, fw)
+    nofile = []
+    for bid, b in g.blocks.items():
+        c = g.term_cond(bid)
+        if c is None:
+            continue
+        core, neg = core_and_neg(c)
+        if is_this_field(strip(core, casts=True), "_file"):
+            nofile.append((bid, "T" if neg else "F"))  # label of 'no file'
+    cnt = g.count_on_paths([g.entry_node], [g.exit_node], fwp)
+    one = bool(nofile) and bool(fwp) and not g.exists_path([g.entry_node], [g.exit_node], avoid_nodes=fwp, avoid_edges=nofile) and (cnt[g.exit_node][1] or 0) <= 1
+    inits = f.var_inits()
+    whole = bool(fw)
+    for c in fw:
+        a = c["args"]
+        d, n_ = strip(a[0], casts=True), strip(a[2], casts=True)
+        src_d = var_ref(call_obj(d)) if is_call(d, r"::data$") else None
+        src_n = var_ref(call_obj(n_)) if is_call(n_, r"::(size|length)$") else None
+        same = src_d is not None and src_d == src_n
+        if same and src_d != stmt:
+            # the user's before_write transformation of this statement
+            i = inits.get(src_d)
+            same = isnode(i) and any(x["k"] == "MemberExpr" and x.get("mname") == "before_write" for x in walk(i)) and \
+                any(x["k"] == "DeclRefExpr" and x.get("did") == stmt for x in walk(i))
+        whole = whole and same and const_val(a[1]) == 1 and is_this_field(strip(a[3], casts=True), "_file")
+    cbt = []
+    for bid, b in g.blocks.items():
+        c = g.term_cond(bid)
+        if c is None:
+            continue
+        core, neg = core_and_neg(c)
+        if any(x["k"] == "MemberExpr" and x.get("mname") == "before_write" for x in walk(core)) and not any(x["k"] == "DeclRefExpr" and x.get("did") == stmt for x in walk(core)):
+            cbt.append((bid, "F" if neg else "T"))  # label of 'callback set'
+    cbcalls = npos(f, [c for c in f.calls() if c["k"] == "CXXOperatorCallExpr" and any(x["k"] == "MemberExpr" and x.get("mname") == "before_write" for x in walk(c["args"][0]))
+                       and "operator()" in c["callee"]])
+    plain = [p_ for c in fw for p_ in g.positions(c) if var_ref(call_obj(strip(c["args"][0], casts=True))) == stmt]
+    guard = bool(cbt) and bool(cbcalls) and not g.exists_path([g.entry_node], cbcalls, avoid_edges=cbt) and \
+        not g.exists_path([g.entry_node], plain, avoid_edges=[(b, other(l)) for (b, l) in cbt])
+    whole = whole and guard
+    ctx.ob("C14.R1h", "StreamSink::write_log:whole-statement-once", one and whole,
+           "with a file open the statement is handed to fwrite exactly once on every path (%s): all size() bytes from data() of the "
+           "statement itself, or of the user's before_write transformation of it (%s)" % (one, whole), fn=f)
+    sf = facts.need("quill::StreamSink::safe_fwrite", "A")[0]
+    sg = sf.g
+    throws = sg.pos_of(lambda n: isnode(n) and n.get("k") == "CXXThrowExpr")
+    w = sf.calls(r"^(std::)?fwrite$")
+    short_t = []
+    for bid, b in sg.blocks.items():
+        c = sg.term_cond(bid)
+        cs = cmp_sides(c) if c is not None else None
+        if cs and cs[0] == "<" and var_ref(cs[2]) == sf.rec["params"][2]["did"]:
+            short_t.append(bid)
+    ok = len(w) == 1 and [var_ref(x) for x in w[0]["args"]] == [p_["did"] for p_ in sf.rec["params"]] and bool(short_t) and \
+        any(p in throws for p in straight_after(sg, short_t[0], "T"))
+    ctx.ob("C14.R1h", "StreamSink::safe_fwrite:short-write-throws", ok,
+           "fwrite receives exactly the arguments given and a short write (written < count) is raised as an error, never ignored", fn=sf)
+
+
+def _stmts(n):
+    """flatten a compound statement into its statement list (ExprWithCleanups peeled)"""
+    if not isnode(n):
+        return []
+    if n["k"] == "CompoundStmt":
+        return [strip(x) if isnode(x) and x["k"] == "ExprWithCleanups" else x for x in n.get("c") or []]
+    return [strip(n) if n["k"] == "ExprWithCleanups" else n]
+
+
+def _assign(st):
+    """(lhs, rhs) of a built-in or class-type assignment statement, else None"""
+    st = strip(st)
+    if not isnode(st):
+        return None
+    if st["k"] == "BinaryOperator" and st["op"] == "=":
+        return st["lhs"], st["rhs"]
+    if st["k"] == "CXXOperatorCallExpr" and (st.get("callee") or "").endswith("operator=") and len(st["args"]) == 2:
+        return st["args"][0], st["args"][1]
+    return None
+
+
+def rename_chain(ctx, facts, f):
+    """R4b-e: the rename chain as a table transformation: old name from the entry as it is, new name from the values the entry receives"""
+    g = f.g
+    site = "RotatingSink<%s>::_rotate_files" % inst(f)
+    ren = f.calls(r"::_rename_file$")
+    loops = [a for c in ren for a in f.ancestors(c) if a["k"] == "ForStmt"]
+    if not ren or not loops:
+        raise AnalysisBroken(site + ": rename loop not found")
+    lp = loops[0]
+    itv = None
+    init = lp.get("init")
+    if isnode(init) and init.get("decls"):
+        itv = init["decls"][0]["did"]
+    def on_it(e, member=None):
+        e = strip(e, casts=True)
+        return isnode(e) and e["k"] == "MemberExpr" and (member is None or e.get("mname") == member) and \
+            any(x["k"] == "DeclRefExpr" and x.get("did") == itv for x in walk(e.get("base")))
+    # loop covers every entry: it != rend / ++it / no early exit
+    cond_ok = isnode(lp.get("cond")) and is_call(strip(lp["cond"]), r"operator!=") and \
+        any(is_call(x, r"std::deque<.*>::(rend|end)$") and is_this_field(call_obj(x), "_created_files") for x in walk(lp["cond"]))
+    inc = strip(lp.get("inc"))
+    inc_ok = isnode(inc) and is_call(inc, r"operator\+\+$") and any(x["k"] == "DeclRefExpr" and x.get("did") == itv for x in walk(inc))
+    early = [x for x in walk(lp["body"]) if x["k"] in ("BreakStmt", "ContinueStmt", "ReturnStmt", "GotoStmt")]
+    ctx.ob("C14.R4b", site + ":chain-covers-every-entry", itv is not None and cond_ok and inc_ok and not early,
+           "the rename loop visits every registered file: runs until the end iterator, advances by one, never leaves early", fn=f)
+    body = _stmts(lp["body"])
+    # existing name: <var> = _get_filename(it->base_filename, it->index, it->date_time), before any update of the entry
+    existing_v, existing_stmt = None, None
+    for st in body:
+        a = _assign(st)
+        srcs = [a] if a else []
+        if isnode(st) and st["k"] == "DeclStmt":
+            srcs = [({"k": "DeclRefExpr", "dk": "Var", "did": d["did"], "id": -1, "name": ""}, d.get("init")) for d in st.get("decls") or [] if isnode(d.get("init"))]
+        for (lhs, rhs) in srcs:
+            calls = [x for x in walk(rhs) if is_call(x, r"::_get_filename$")]
+            if calls and len(calls[0]["args"]) == 3 and on_it(calls[0]["args"][0], "base_filename") and on_it(calls[0]["args"][1], "index") and on_it(calls[0]["args"][2], "date_time"):
+                existing_v, existing_stmt = var_ref(lhs), st
+    idx_v = None
+    for st in body:
+        if isnode(st) and st["k"] == "DeclStmt":
+            for d in st.get("decls") or []:
+                if isnode(d.get("init")) and on_it(d["init"], "index"):
+                    idx_v = d["did"]
+    arms = []
+    def collect(n, conds):
+        for st in _stmts(n):
+            if isnode(st) and st["k"] == "IfStmt":
+                collect(st.get("then"), conds + [(st["cond"], True)])
+                if st.get("else") is not None:
+                    collect(st.get("else"), conds + [(st["cond"], False)])
+        sts = _stmts(n)
+        if any(isnode(x) and (is_call(strip(x), r"::_rename_file$") or
+                              (_assign(x) and (on_it(_assign(x)[0], "index") or on_it(_assign(x)[0], "date_time")))) for x in sts):
+            arms.append((sts, conds))
+    collect(lp["body"], [])
+    ctx.floor("C14.R4c", "renaming arms of the chain", len(arms), 2)
+    upd_before = False
+    ex_pos = g.positions(existing_stmt) if existing_stmt is not None else []
+    for k, (sts, conds) in enumerate(arms):
+        delta, reset, newname, new_v, upd_i, upd_d, rn = 0, False, None, None, None, None, None
+        order_ok = True
+        for st in sts:
+            st_ = strip(st)
+            if not isnode(st_):
+                continue
+            if st_["k"] == "CompoundAssignOperator" and var_ref(st_["lhs"]) == idx_v and idx_v is not None:
+                c = const_val(st_["rhs"])
+                delta = (delta + c if st_["op"] == "+=" and c is not None else 99)
+                if newname is not None:
+                    order_ok = False
+            elif st_["k"] == "UnaryOperator" and st_.get("op") == "++" and var_ref(st_["sub"]) == idx_v and idx_v is not None:
+                delta += 1
+                if newname is not None:
+                    order_ok = False
+            a = _assign(st_)
+            if a:
+                lhs, rhs = a
+                if var_ref(lhs) == idx_v and idx_v is not None and st_["k"] == "BinaryOperator":
+                    if on_it(rhs, "index"):
+                        delta = 0
+                    else:
+                        delta = 99
+                calls = [x for x in walk(rhs) if is_call(x, r"::_get_filename$")]
+                if calls and var_ref(lhs) is not None and var_ref(lhs) != existing_v:
+                    newname, new_v = calls[0], var_ref(lhs)
+                if on_it(lhs, "index"):
+                    upd_i = rhs
+                if on_it(lhs, "date_time"):
+                    upd_d = rhs
+            if is_call(st_, r"::_rename_file$"):
+                rn = st_
+                if newname is None or upd_i is None or upd_d is None:
+                    order_ok = order_ok and newname is not None
+        incr_arm = any(pos and (any(x["k"] == "DeclRefExpr" and x.get("name", "").endswith("RotationNamingScheme::Index") for x in walk(c)) or
+                                any(on_it(x, "date_time") for x in walk(c)) and not any(is_call(x, r"::empty$") for x in walk(c)))
+                       for (c, pos) in conds[-1:])
+        # the shifting arm is entered exactly on 'Index scheme' or 'same date suffix as the file being retired'
+        pol_ok = True
+        if rn is not None:
+            shift_edges = []
+            for bid, b in g.blocks.items():
+                c = g.term_cond(bid)
+                if c is None or not in_subtree(c, lp["body"]):
+                    continue
+                nc = norm_cmp(c)
+                cc = strip(c)
+                if nc and nc[0] in ("==", "!=") and any(x["k"] == "DeclRefExpr" and x.get("name", "").endswith("RotationNamingScheme::Index") for x in walk(c)):
+                    shift_edges.append((bid, "T" if nc[0] == "==" else "F"))
+                elif isnode(cc) and is_call(cc, r"operator(==|!=)") and any(on_it(x, "date_time") for x in cc["args"]):
+                    shift_edges.append((bid, "T" if "operator==" in cc["callee"] else "F"))
+            rp = g.positions(rn)
+            if incr_arm:
+                pol_ok = bool(shift_edges) and not g.exists_path(ex_pos, rp, avoid_nodes=[p_ for p_ in npos(f, [lp["inc"]])], avoid_edges=shift_edges)
+            else:
+                pol_ok = bool(shift_edges) and not any(g.exists_path([tnode(g, b)], rp, avoid_nodes=[p_ for p_ in npos(f, [lp["inc"]])], avoid_edges=[(b, other(l))])
+                                                       for (b, l) in shift_edges)
+        ok_names = pol_ok and rn is not None and newname is not None and len(rn["args"]) == 2 and var_ref(rn["args"][0]) == existing_v and existing_v is not None and \
+            var_ref(rn["args"][1]) == new_v
+        ok_entry = newname is not None and upd_i is not None and upd_d is not None and len(newname["args"]) == 3 and on_it(newname["args"][0], "base_filename") and \
+            var_ref(newname["args"][1]) is not None and var_ref(newname["args"][1]) == var_ref(upd_i) and \
+            var_ref(newname["args"][2]) is not None and var_ref(newname["args"][2]) == var_ref(upd_d)
+        ok_idx = idx_v is not None and newname is not None and var_ref(newname["args"][1]) == idx_v and delta == (1 if incr_arm else 0)
+        ctx.ob("C14.R4c", site + ":chain-arm#%d:%s" % (k, "shift" if incr_arm else "stamp"), ok_names and ok_entry and ok_idx and order_ok,
+               "%s arm: the file is renamed from the name its entry describes (%s) to the name built from exactly the index and date the "
+               "entry receives (%s); the index used is the old one %s (%s)" %
+               ("index-shifting" if incr_arm else "date-stamping", ok_names, ok_entry, "+ 1" if incr_arm else "unchanged", ok_idx and order_ok), fn=f)
+    # the old name is computed before the entry is touched
+    upd_pos = npos(f, [x for x in walk(lp["body"]) if _assign(x) and (on_it(_assign(x)[0], "index") or on_it(_assign(x)[0], "date_time"))])
+    ok = bool(ex_pos) and bool(upd_pos) and all(g.dominates(ex_pos, p) for p in upd_pos)
+    # within one iteration: no update precedes the computation (the back edge is allowed)
+    ctx.ob("C14.R4d", site + ":old-name-before-update", ok and existing_v is not None,
+           "the existing file name is computed from the entry (base name, index, date) before the entry is updated in that iteration", fn=f)
+    # R4e: date suffix per naming scheme, from the moment the file was opened
+    sfx = {}
+    for n in f.walk():
+        a = _assign(n) if n["k"] in ("BinaryOperator", "CXXOperatorCallExpr") else None
+        if not a:
+            continue
+        calls = [x for x in walk(a[1]) if is_call(x, r"::format_datetime_string$")]
+        if calls:
+            c = calls[0]
+            fmt = [x["str"] for x in walk(c["args"][2]) if x["k"] == "StringLiteral"]
+            ifs = [i for i in f.ancestors(n) if i["k"] == "IfStmt" and in_subtree(n, i["then"])]
+            scheme = [x["name"].split("::")[-1] for x in walk(ifs[0]["cond"]) if x["k"] == "DeclRefExpr" and x.get("dk") == "EnumConstant"] if ifs else []
+            nc = norm_cmp(ifs[0]["cond"]) if ifs else None
+            sfx[scheme[0] if scheme and nc and nc[0] == "==" else "?"] = (fmt[0] if fmt else None, is_this_field(strip(c["args"][0], casts=True), "_open_file_timestamp"),
+                                                                           any(is_call(x, r"::timezone$") for x in walk(c["args"][1])))
+    ok = sfx.get("Date") == ("%Y%m%d", True, True) and sfx.get("DateAndTime") == ("%Y%m%d_%H%M%S", True, True) and "?" not in sfx and "Index" not in sfx
+    ctx.ob("C14.R4e", site + ":suffix-per-scheme", ok,
+           "the Date scheme stamps %%Y%%m%%d, DateAndTime %%Y%%m%%d_%%H%%M%%S, Index nothing — each of the moment the retired file was opened, "
+           "in the configured zone (%s)" % sfx, fn=f)
+
+
+def get_filename(ctx, facts, f):
+    g = f.g
+    site = "RotatingSink<%s>::_get_filename" % inst(f)
+    datep, idxp = f.rec["params"][2]["did"], f.rec["params"][1]["did"]
+    ad = cpos(f, r"::_append_string_to_filename$")
+    ai = cpos(f, r"::_append_index_to_filename$")
+    de, ie = [], []
+    for bid, b in g.blocks.items():
+        c = g.term_cond(bid)
+        if c is None:
+            continue
+        core, neg = core_and_neg(c)
+        cs_ = strip(core, casts=True)
+        if is_call(cs_, r"::empty$") and var_ref(call_obj(cs_)) == datep:
+            de.append((bid, "T" if neg else "F"))  # label of 'has a date'
+        nc = norm_cmp(c)
+        if nc and "v%d" % idxp in (nc[1], nc[2]) and "0" in (nc[1], nc[2]):
+            lab = {"<": "T" if nc[1] == "0" else None, "!=": "T", "==": "F"}.get(nc[0])
+            if lab:
+                ie.append((bid, lab))  # label of 'index is positive'
+    ok = bool(ad) and bool(ai) and bool(de) and bool(ie) and \
+        not g.exists_path([g.entry_node], ad, avoid_edges=de) and not g.exists_path([g.entry_node], ai, avoid_edges=ie) and \
+        all(not g.exists_path([tnode(g, b)], [g.exit_node], avoid_nodes=ad, avoid_edges=[(b, other(l))]) for (b, l) in de) and \
+        all(not g.exists_path([tnode(g, b)], [g.exit_node], avoid_nodes=ai, avoid_edges=[(b, other(l))]) for (b, l) in ie) and \
+        not g.exists_path(ai, ad)
+    ctx.ob("C14.R4f", site + ":name-of-an-entry", ok,
+           "a file name is the base name, plus the date exactly when the entry has one, plus the index exactly when it is positive (index 0 "
+           "without a date is the live file itself), date before index", fn=f)
+
+
 def recover(ctx, facts, f):
     """restart: files are deleted only when asked to and only in write mode; append mode re-registers what it finds"""
     g = f.g
@@ -268,6 +588,133 @@ def recover(ctx, facts, f):
     ctx.ob("C14.R5e", site + ":unrelated-files-untouched", okp and oke,
            "a directory entry is deleted or adopted into the sequence only when its name starts with '<stem>.' (a position-0 match, "
            "%d test(s): %s) and carries the sink's extension (%d test(s): %s)" % (len(pref), okp, len(ext), oke), fn=f)
+    # R5f: clean-up / recovery is skipped only for naming schemes that cannot collide (anything but Index and Date): for Index and
+    # Date the scan is reached; and inside the scan each scheme has its own arm
+    sch = {}
+    for bid, b in g.blocks.items():
+        c = g.term_cond(bid)
+        nc = norm_cmp(c) if c is not None else None
+        if nc and nc[0] in ("==", "!=") and any(is_call(x, r"::rotation_naming_scheme$") for x in walk(c)):
+            for x in walk(c):
+                if x["k"] == "DeclRefExpr" and x.get("dk") == "EnumConstant" and "RotationNamingScheme" in x.get("name", ""):
+                    sch.setdefault(x["name"].split("::")[-1], []).append((bid, "T" if nc[0] == "==" else "F"))  # label of 'scheme is X'
+    en = facts.enum("quill::RotatingFileSinkConfig::RotationNamingScheme", "A")
+    if not en:
+        raise AnalysisBroken("RotationNamingScheme not found")
+    scan_entry = sorted(set(p_ for lp_ in [n for n in f.walk() if n["k"] == "CXXForRangeStmt"] for p_ in g.positions(lp_.get("range")) or []))
+    rets = g.return_nodes()
+    ok = bool(acts)
+    detail = {}
+    for (name, _v) in en["enumerators"]:
+        collide = name in ("Index", "Date")
+        # taking only the 'scheme is <name>' outcomes of tests on <name> and only the 'is not' outcomes of tests on the others
+        avoid = [(b, other(l)) for (b, l) in sch.get(name, [])] + [(b, l) for n2, es in sch.items() if n2 != name for (b, l) in es]
+        reach_acts = g.exists_path([g.entry_node], acts, avoid_edges=avoid)
+        detail[name] = reach_acts
+        ok = ok and (reach_acts == collide)
+    ctx.ob("C14.R5f", site + ":schemes-that-can-collide", ok and "Index" in sch and "Date" in sch,
+           "old files are cleaned / recovered for exactly the naming schemes whose names can collide across restarts (Index, Date), and "
+           "for none other (removal or adoption reachable per scheme: %s)" % detail, fn=f)
+    # R5g: under the Index scheme every matching file is removed (write mode) / registered with its parsed index (append mode);
+    # under the Date scheme only today's files
+    idx_only = [(b, other(l)) for (b, l) in sch.get("Index", [])] + [(b, l) for n2, es in sch.items() if n2 != "Index" for (b, l) in es]
+    date_only = [(b, other(l)) for (b, l) in sch.get("Date", [])] + [(b, l) for n2, es in sch.items() if n2 != "Date" for (b, l) in es]
+    today = []
+    for bid, b in g.blocks.items():
+        c = g.term_cond(bid)
+        if c is None:
+            continue
+        cc, neg_ = core_and_neg(c)
+        cc = strip(cc)
+        if isnode(cc) and is_call(cc, r"operator(==|!=)") and any(var_name(x) == "today_date" or (x["k"] == "DeclRefExpr" and "today" in x.get("name", "")) for x in walk(cc)):
+            lab_ = "T" if "operator==" in cc["callee"] else "F"
+            today.append((bid, other(lab_) if neg_ else lab_))
+    ok_idx = bool(rem) and bool(reg) and g.exists_path([g.entry_node], rem, avoid_edges=idx_only + today) and g.exists_path([g.entry_node], reg, avoid_edges=idx_only + today)
+    ok_date = bool(today) and g.exists_path([g.entry_node], rem, avoid_edges=date_only) and g.exists_path([g.entry_node], reg, avoid_edges=date_only) and \
+        not g.exists_path([g.entry_node], rem, avoid_edges=date_only + today) and not g.exists_path([g.entry_node], reg, avoid_edges=date_only + today)
+    # every removal / registration site of the Date arm is feasible when all 'is today's date' tests succeed and infeasible when any fails
+    date_sites = [p_ for p_ in sorted(set(rem) | set(reg)) if g.exists_path([g.entry_node], [p_], avoid_edges=date_only) and
+                  not g.exists_path([g.entry_node], [p_], avoid_edges=idx_only)]
+    ok_date = ok_date and bool(date_sites) and all(g.exists_path([g.entry_node], [p_], avoid_edges=date_only + [(b, other(l)) for (b, l) in today]) for p_ in date_sites)
+    stoul = [c for c in f.calls(r"^std::stoul$")]
+    idx_parsed = any(any(in_subtree(c, r_) for c in stoul) for r_ in [x for x in f.calls(r"std::deque<.*>::(emplace_front|emplace_back|push_front|push_back)") if is_this_field(call_obj(x), "_created_files")])
+    ctx.ob("C14.R5g", site + ":per-scheme-arms", ok_idx and ok_date and idx_parsed,
+           "Index scheme: every matching file is removed / re-registered with the index parsed from its name, without a date test (%s, "
+           "parsed: %s); Date scheme: only files that carry today's date are removed / re-registered (%s) — files of earlier days cannot "
+           "collide and stay" % (ok_idx, idx_parsed, ok_date), fn=f)
+    # R5h: a position returned by a search is used as a position only on the 'found' outcome of its npos test
+    inits_ = f.var_inits()
+    bad_use, nvars = [], 0
+    for vid, i in inits_.items():
+        if not (isnode(i) and any(is_call(x, r"basic_string<.*>::(find|rfind|find_last_of|find_first_of)$") for x in walk(strip(i, casts=True)) if x is strip(i, casts=True))):
+            continue
+        tests_ = []
+        for bid, b in g.blocks.items():
+            c = g.term_cond(bid)
+            nc = norm_cmp(c) if c is not None else None
+            if nc and nc[0] in ("==", "!=") and "v%d" % vid in (nc[1], nc[2]) and any(x["k"] == "DeclRefExpr" and x.get("name", "").endswith("npos") for x in walk(c)):
+                tests_.append((bid, "T" if nc[0] == "!=" else "F", c))  # label of 'found'
+        if not tests_:
+            continue
+        nvars += 1
+        uses = [x for x in f.walk() if x["k"] == "DeclRefExpr" and x.get("did") == vid and not any(in_subtree(x, c) for (_b, _l, c) in tests_)]
+        up = sorted(set(p_ for u in uses for p_ in g.positions(u) or []))
+        if g.exists_path([g.entry_node], up, avoid_edges=[(b, l) for (b, l, _c) in tests_]):
+            bad_use.append(vid)
+    ctx.floor("C14.R5h", "search results tested against npos", nvars, 4)
+    ctx.ob("C14.R5h", site + ":position-used-only-when-found", not bad_use,
+           "the offset of the last dot (index / date separator) is used to cut the name only on the 'found' outcome of its npos test "
+           "(%d searched positions, %d used on the other outcome)" % (nvars, len(bad_use)), fn=f)
+    # R5i: a found separator position V splits a name into [0, V) and [V + 1, ...): every substr that mentions V has one of these forms
+    searched = set()
+    for vid, i in inits_.items():
+        if isnode(i) and is_call(strip(i, casts=True), r"basic_string<.*>::(find|rfind|find_last_of|find_first_of)$"):
+            searched.add(vid)
+    cuts, bad_cut = 0, []
+    for c in f.calls(r"basic_string<.*>::substr$"):
+        a = c["args"]
+        vs = [x.get("did") for arg in a for x in walk(arg) if x["k"] == "DeclRefExpr" and x.get("did") in searched]
+        if not vs:
+            continue
+        cuts += 1
+        a0 = strip(a[0], casts=True)
+        before = const_val(a[0]) == 0 and len(a) > 1 and var_ref(a[1]) in searched
+        after = isnode(a0) and a0["k"] == "BinaryOperator" and a0["op"] == "+" and \
+            ((var_ref(a0["lhs"]) in searched and const_val(a0["rhs"]) == 1) or (var_ref(a0["rhs"]) in searched and const_val(a0["lhs"]) == 1)) and \
+            not any(x["k"] == "DeclRefExpr" and x.get("did") in searched for x in walk(a[1])) if len(a) > 1 else False
+        if not (before or after):
+            bad_cut.append(c["loc"])
+    ctx.floor("C14.R5i", "cuts at a separator position", cuts, 8)
+    ctx.ob("C14.R5i", site + ":cut-at-the-separator", not bad_cut,
+           "a name is cut at a found dot either as substr(0, pos) (what precedes it) or substr(pos + 1, ...) (what follows it): %d cuts, "
+           "other forms at %s" % (cuts, bad_cut), fn=f)
+    # R5j: what is registered is a path that had the recovered file name appended
+    regs = [x for x in f.calls(r"std::deque<.*>::(emplace_front|emplace_back|push_front|push_back)") if is_this_field(call_obj(x), "_created_files")]
+    okj = bool(regs)
+    for r_ in regs:
+        pv = var_ref(r_["args"][0])
+        apps = [c for c in f.calls(r"filesystem::path::append\b|filesystem::path::operator/=") if var_ref(call_obj(c) if c["k"] != "CXXOperatorCallExpr" else c["args"][0]) == pv and pv is not None]
+        okj = okj and bool(apps) and all(g.dominates(npos(f, apps), p_) for p_ in g.positions(r_)) and \
+            any(any(is_call(y, r"basic_string<.*>::substr$") for y in walk(inits_.get(var_ref(c["args"][0 if c["k"] != "CXXOperatorCallExpr" else 1]), {}) or {})) for c in apps)
+    ctx.ob("C14.R5j", site + ":registered-entry-names-the-file", okj,
+           "every recovered entry is registered under the directory plus the base file name cut out of the entry's name (the name the "
+           "rename chain will later rebuild)", fn=f)
+    # R5k: the 'this suffix is a date' test admits the 8 characters of %Y%m%d
+    fmt_len = None
+    for c in f.calls(r"::format_datetime_string$"):
+        for x in walk(c["args"][2]):
+            if x["k"] == "StringLiteral":
+                t_ = x["str"]
+                fmt_len = t_.count("%Y") * 4 + t_.count("%m") * 2 + t_.count("%d") * 2 + len(__import__("re").sub(r"%[Ymd]", "", t_))
+    thr = []
+    for bid, b in g.blocks.items():
+        c = g.term_cond(bid)
+        cs = cmp_sides(c) if c is not None else None
+        if cs and const_val(cs[1]) is not None and is_call(strip(cs[2], casts=True), r"basic_string<.*>::(length|size)$"):
+            thr.append(const_val(cs[1]) + (1 if cs[0] == "<" else 0))  # minimal admitted length
+    ctx.ob("C14.R5k", site + ":date-suffix-length", fmt_len is not None and bool(thr) and all(t_ <= fmt_len for t_ in thr),
+           "a suffix is taken for a date when it has at least N characters; N (%s) does not exceed the %s characters the date format "
+           "produces, so today's files are recognised" % (sorted(set(thr)), fmt_len), fn=f)
     ctor = [x for x in facts.fns if x.config == "A" and x.short == "quill::RotatingSink::RotatingSink" and x.rec.get("inits") and inst(x) == inst(f)]
     if ctor:
         c = ctor[0]
